@@ -71,11 +71,16 @@ Ifaces(x) == {x.blocked[i].th : i \in DOMAIN x.blocked} \ {"S"}
 K_LostWakeup(x) ==
     /\ BlockedAt(x, "S", "cond_wake", "qlock")
     /\ \E i \in Ifaces(x) :
-         /\ BlockedAt(x, i, "cond_wake", "plock")
-         /\ LastIdx(x.events, LAMBDA e : e.ev = "prim" /\ e.th = i /\
-                                          e.k = "cond_wait" /\ e.obj = "plock")
-            > LastIdx(x.events, LAMBDA e : e.ev = "prim" /\ e.th = "S" /\
+         LET notified == LastIdx(x.events, LAMBDA e : e.ev = "prim" /\ e.th = "S" /\
                                           e.k = "notify_all" /\ e.obj = "plock")
+         IN /\ BlockedAt(x, i, "cond_wake", "plock")
+            \* the solver did notify for this pause request ...
+            /\ notified > LastIdx(x.events, LAMBDA e : e.ev = "call" /\ e.th = i /\
+                                                      e.k = "P")
+            \* ... but before the interface thread started to wait
+            /\ LastIdx(x.events, LAMBDA e : e.ev = "prim" /\ e.th = i /\
+                                          e.k = "cond_wait" /\ e.obj = "plock")
+               > notified
 \* C18-lock-order: solver holds qlock and wants plock (wait_for_cmd) while an
 \* interface thread in cont() holds plock and wants qlock
 K_LockOrder(x) ==
